@@ -234,9 +234,44 @@ def run_spec(run, spec, a, b, tag, pend, with_model=True):
         model_header(run, spec, b, res[1], dict(case, which="b"), pend)
 
 
+def date_columns(run, only=None):
+    """objects with a TEXT column of ISO dates (digit-hyphen-digit tokens, the documented case of the reader's hyphen rule) among
+    negative numbers, so that every physical line of every layout holds a hyphen: written unwrapped and wrapped at several data
+    widths (rows that fit one line, rows continued on a second and third line), the outputs must read back alike"""
+    import lasio
+    import numpy as np
+    base = dict(version=2, fmt="%.5f", len_numeric_field=None, lhs_spacer=" ", spacer=" ", mnemonics_header=False, data_section_header="~ASCII")
+    shapes = only or [(r, c, pos, w) for r in (2, 3, 5) for c in (2, 4, 6) for pos in (1, c) for w in (24, 30, 40, 60)]
+    for r, c, pos, w in shapes:
+        def make():
+            las = lasio.LASFile()
+            las.append_curve("DEPT", np.array([-1000.0 - 0.5 * i for i in range(r)]), unit="M")
+            k = 0
+            for j in range(1, c + 1):
+                if j == pos:
+                    las.append_curve("DATE", np.array(["2020-%02d-%02d" % (1 + i % 12, 10 + i) for i in range(r)]))
+                else:
+                    k += 1
+                    las.append_curve("N%d" % k, np.array([-(100.0 * k + i + 0.25) for i in range(r)]))
+            return las
+        for a, b in ((dict(base, wrap=False, data_width=79), dict(base, wrap=True, data_width=w)),
+                     (dict(base, wrap=True, data_width=79), dict(base, wrap=True, data_width=w))):
+            case = {"stream": "date-column", "shape": [r, c, pos, w], "a": a, "b": b, "dlm": "SPACE"}
+            run.case(case, nontrivial=True, tags=["date-column", "width=%d" % w])
+            try:
+                ta, tb = write(make(), a), write(make(), b)
+                ra, rb = lasio.read(ta), lasio.read(tb)
+            except Exception as e:
+                run.fail("one-output-unreadable", case, {"error": repr(e)[:300]})
+                continue
+            if lo.canon_data(ra) != lo.canon_data(rb):
+                run.fail("data-config-independence", case, {"a": lo.canon_data(ra)[:3], "b": lo.canon_data(rb)[:3]})
+
+
 def run(run):
     import lasio
     pend = []
+    date_columns(run)
     base = dict(wrap=False, fmt="%.5f", len_numeric_field=None, lhs_spacer=" ", spacer=" ", data_width=79,
                 mnemonics_header=False, data_section_header="~ASCII")
     # the known finding, re-run through the oracle on every run
@@ -396,6 +431,10 @@ def shrink(run, f):
 
 def replay(run, payload):
     c = payload["case"]
+    if c.get("stream") == "date-column":
+        before = len(run.failures)
+        date_columns(run, only=[tuple(c["shape"])])
+        return len(run.failures) == before
     a, b = fix_cfg(c["a"]), fix_cfg(c["b"])
     if "reread_text" in c:
         return still_fails({"reread_text": c["reread_text"], "mnemonic_case": c["mnemonic_case"]}, a, b) is None
